@@ -714,6 +714,80 @@ impl Interp {
                 let c = self.ctx(j.get("ctx"));
                 Self::snapshot(&c, &mut out);
             }
+            "selfctx" => {
+                // A context of which the host keeps the ONLY strong handle: its functions capture a Weak of the public
+                // field, upgrade it when called and really lock it (blocking). If the engine still holds that lock the
+                // thread deadlocks against itself and the supervisor reports it.
+                let mut c = if j.get("macro").bool() { expression_engine::create_context!() } else { Context::new() };
+                if let Some(m) = j.get("vars").obj() {
+                    for (k, v) in m {
+                        if let Ok(v) = ser::value_from_json(v) {
+                            c.set_variable(k, v);
+                        }
+                    }
+                }
+                if let Some(m) = j.get("wfns").obj() {
+                    for (k, spec) in m {
+                        let w = Arc::downgrade(&c.0);
+                        let act = spec.get("act").str().to_string();
+                        let a = spec.get("a").str().to_string();
+                        let b = spec.get("b").str().to_string();
+                        let val = ser::value_from_json(spec.get("val")).unwrap_or(Value::None);
+                        let ret = spec.get("ret").str().to_string();
+                        let retval = ser::value_from_json(spec.get("retval")).unwrap_or(Value::None);
+                        let name = k.clone();
+                        c.set_func(k, Arc::new(move |params: Vec<Value>| {
+                            ST.with(|st| st.borrow_mut().log.push(format!("{{\"wfn\":{}}}", q(&name))));
+                            if let Some(h) = w.upgrade() {
+                                match act.as_str() {
+                                    "copy" => {
+                                        let mut g = h.lock().unwrap();
+                                        if let Some(v) = g.get(&a).cloned() {
+                                            g.insert(b.clone(), v);
+                                        }
+                                    }
+                                    "remove" => {
+                                        h.lock().unwrap().remove(&a);
+                                    }
+                                    "set" => {
+                                        drop(h.lock().unwrap());
+                                        Context { 0: h.clone() }.set_variable(&a, val.clone());
+                                    }
+                                    _ => {
+                                        drop(h.lock().unwrap());
+                                    }
+                                }
+                            }
+                            Ok(match ret.as_str() {
+                                "arg0" => params.first().cloned().unwrap_or(Value::None),
+                                _ => retval.clone(),
+                            })
+                        }));
+                    }
+                }
+                let text = leak(j.get("text").str());
+                ST.with(|st| st.borrow_mut().log.clear());
+                if j.get("via").str() == "execute" {
+                    let r = catch(|| execute(text, c));
+                    Self::exec_res(r, &mut out);
+                } else {
+                    match catch(|| parse_expression(text)) {
+                        Ok(Ok(ast)) => {
+                            let r = catch(|| ast.exec(&mut c));
+                            Self::exec_res(r, &mut out);
+                            Self::snapshot(&c, &mut out);
+                        }
+                        Ok(Err(e)) => {
+                            let _ = write!(out, ",\"p\":\"err\",\"perr\":{}", q(&format!("{:?}", e)));
+                        }
+                        Err(p) => {
+                            let _ = write!(out, ",\"p\":\"panic\",\"ppanic\":{}", panic_json(&p));
+                        }
+                    }
+                }
+                let log = ST.with(|st| std::mem::take(&mut st.borrow_mut().log));
+                let _ = write!(out, ",\"log\":[{}]", log.join(","));
+            }
             "reg_fn" | "reg_prefix" | "reg_postfix" | "reg_infix" => {
                 if let Err(p) = catch(|| do_register(op, j)) {
                     let _ = write!(out, ",\"reg_panic\":{}", panic_json(&p));
